@@ -122,7 +122,7 @@ func catalogue(w *world, check string) []kase {
 				}
 			}
 			// equivocation: a broadcast altered for ONE recipient only (the others receive the original)
-			if check != "C05" && s.Broadcast && len(w.spec.IDs) >= 3 && len(w.sc.OnlyPaths) == 0 {
+			if check != "C05" && s.Broadcast && len(w.spec.IDs) >= 3 {
 				for _, rcp := range w.spec.IDs {
 					if rcp == d {
 						continue
@@ -130,6 +130,9 @@ func catalogue(w *world, check string) []kase {
 					es := s
 					es.To = rcp
 					for _, nd := range faults.Walk(tree) {
+						if len(w.sc.OnlyPaths) > 0 && !inList(w.sc.OnlyPaths, nd.Path) {
+							continue
+						}
 						ops := faults.SemanticOps(tree, nd, ctx)
 						for _, pref := range []string{"bit-flip", "sc-plus1", "pt-negate", "int-flip-mid", "other-party"} {
 							if v, ok := ops[pref]; ok {
